@@ -423,8 +423,16 @@ func main() {
 	nScalar := len(props)
 	nv := o.N / 6
 	vr := NewRng(o.Seed + 15485863)
-	for k := 0; k < nv; k++ {
-		fam, vc := genVCase(k, vr.Split())
+	vr7 := NewRng(o.Seed + 32452843)
+	for k := 0; k < nv+nv/3; k++ {
+		var fam string
+		var vc VCase
+		if k < nv {
+			fam, vc = genVCase(k, vr.Split())
+		} else { // round 7: VectorId over blocks of different dimensions
+			fam, vc = genVVIdCase(k-nv, vr7.Split())
+			hist[fmt.Sprintf("vectorid-layout:%v", vc.Dims)]++
+		}
 		obs, inc := vecEvalAll(fam, &vc)
 		c := Case{Fam: fam, Fn: "LogPdf", Obs: obs, Incons: inc, Class: "valid-params:" + obs.Kind, V: &vc}
 		if vc.Pdf {
